@@ -980,6 +980,13 @@ type Explorer struct {
 	CaseCost int
 	visited  map[[2]uint64]bool
 	Pruned   int
+	// LevelOrder explores the schedule tree breadth-first: first the canonical schedule, then
+	// every schedule with exactly one departure from it (default choices afterwards), then
+	// two departures, ... The set explored without a cap is the same as depth-first; under an
+	// execution cap the explored part is "all single departures first", which is what reaches
+	// every preemption window of the program once.
+	LevelOrder bool
+	queue      [][]int
 }
 
 type Failure struct {
@@ -1005,6 +1012,16 @@ func (e *Explorer) Explore() {
 	}
 	if e.MaxFail == 0 {
 		e.MaxFail = 3
+	}
+	if e.LevelOrder {
+		e.queue = [][]int{nil}
+		for len(e.queue) > 0 && !e.Capped && len(e.Failures) < e.MaxFail {
+			pf := e.queue[0]
+			e.queue = e.queue[1:]
+			e.explore(pf)
+		}
+		e.queue = nil
+		return
 	}
 	e.explore(nil)
 }
@@ -1090,6 +1107,10 @@ func (e *Explorer) explore(prefix []int) {
 					continue
 				}
 				np := append(append(make([]int, 0, i+1), o.Choices[:i]...), alt)
+				if e.LevelOrder {
+					e.queue = append(e.queue, np)
+					continue
+				}
 				e.explore(np)
 			}
 		}
